@@ -221,8 +221,8 @@ CHECKS["C12"] = dict(
 CHECKS["C20"] = dict(
    text="PARTIAL proof. Proved for ALL lengths (Lean, no bound) about models of the code between untrusted input and memory: gen_allocdefs.h readyplus/ready/append, "
         "stralloc_catb/copyb and quote.c doit() with the exact 32-bit arithmetic of __builtin_add/mul_overflow (success => len <= a, a*sizeof = bytes requested without wrap, every store "
-        "index < a; a request that does not fit 32 bits is refused untouched - the CVE-2005-1513 regime; doit()'s signed counter overflows iff len+esc+2 > INT_MAX, a real defect for >= 2^30-byte "
-        "addresses); substdio put/bput/flush/putflush/feed/get (0 <= p <= n, n+p = size, every byte_copy inside the buffer, caller buffer never overrun, stream laws for every write/read chunking); "
+        "index < a; a request that does not fit 32 bits is refused untouched - the CVE-2005-1513 regime; quote.c doit()/quote_need() for every length that passes the two overflow checks, with the counter "
+        "types read from the source - the pre-26e354b signed counters provably overflow for >= 2^30-byte addresses and are kept as a mutant model); substdio put/bput/flush/putflush/feed/get (0 <= p <= n, n+p = size, every byte_copy inside the buffer, caller buffer never overrun, stream laws for every write/read chunking); "
         "the fixed buffers of qmail-qmqpd/qmail-qmtpd/qmail-getpw/qmail.c (sizes and guards regenerated from the sources), spawn.c slots and report truncation, REPORTMAX, pop3d msgno; dns.c "
         "resolve/findname/findip/findmx (every read < responselen for every dn_expand honouring its contract; the pre-367ee1b code provably over-reads); the cdb reader on arbitrary files. "
         "Tied to the current source by differential harnesses on the real functions (ASan+UBSan, exact-size blocks, scripted allocator/descriptors, interposed resolver with poisoned buffer tail). "
@@ -231,6 +231,6 @@ CHECKS["C20"] = dict(
         "(~12k/90k child runs); oracle = no sanitizer report/signal/hang, documented exit status.",
    note=NOTE_COMMON + "Partial: absence of UB outside the modelled arithmetic is evidence by instrumented execution, not proof. Assumed: LP64, builtin overflow semantics, malloc(0) != NULL, "
         "read/write return 1..len or -1, resolver returns -1 or 12..buflen bytes, dn_expand contract (checked at run time), fmt_ulong <= 20 digits. Slot/REPORTMAX/msgno/cdb theorems are about the "
-        "models of C18/C19/C11. Open defect: quote.c signed counters (notes/C20-fix-1.diff).",
+        "models of C18/C19/C11. The 1 GiB quote() case runs in the thorough tier (and as failing-input search when an obligation breaks), not in quick.",
    technique="Lean 4 proof (bounds arithmetic over exact machine-integer models; inductive stream laws) + translator for buffer sizes/guards + differential correspondence + sanitised execution of real binaries",
    design="DESIGN.md §2 C20")
